@@ -41,21 +41,23 @@ type rtReq struct {
 	Tag    int    `json:"tag"`
 	Method string `json:"method"`
 	BodyN  int    `json:"bodyn"`
-	AtMs   int    `json:"atms"` // start offset
+	AtMs   int    `json:"atms"`   // start offset
+	Repeat int    `json:"repeat"` // the caller issues this many further requests back to back (tags Tag+1000, Tag+2000, ...)
 }
 
 type rtCfg struct {
-	MCS        int `json:"mcs"`        // SETTINGS_MAX_CONCURRENT_STREAMS of every scripted server (0: absent)
-	TimeoutMs  int `json:"timeoutms"`  // ClientOpts.MaxResponseTime
-	DialFailAt int `json:"dialfailat"` // connections with index >= this fail to dial (0: never)
-	CloseAtMs  int `json:"closeatms"`  // Client.Close() this long after the first call (0: only at the end)
-	LingerMs   int `json:"lingerms"`   // how long a server that said GOAWAY keeps the connection
-	StallAfter int `json:"stallafter"` // every server stops reading after this many arrivals (0: never) ...
-	PipeCap    int `json:"pipecap"`    // ... and the client->server pipe holds at most this many octets
-	SlowAfter  int `json:"slowafter"`  // every server reads slowly after this many arrivals (0: never): ...
-	SlowMs     int `json:"slowms"`     // ... at most 16 KiB per read, one read per SlowMs
-	BigWin     bool `json:"bigwin"`    // servers grant 16 MiB stream and connection windows up front (flow control never limits a body)
-	Scribble   bool `json:"scribble"`  // callers overwrite their request body the moment RoundTrip returns (as a caller reusing its buffers would)
+	MCS        int    `json:"mcs"`        // SETTINGS_MAX_CONCURRENT_STREAMS of every scripted server (0: absent)
+	TimeoutMs  int    `json:"timeoutms"`  // ClientOpts.MaxResponseTime
+	DialFailAt int    `json:"dialfailat"` // connections with index >= this fail to dial (0: never)
+	CloseAtMs  int    `json:"closeatms"`  // Client.Close() this long after the first call (0: only at the end)
+	LingerMs   int    `json:"lingerms"`   // how long a server that said GOAWAY keeps the connection
+	StallAfter int    `json:"stallafter"` // every server stops reading after this many arrivals (0: never) ...
+	PipeCap    int    `json:"pipecap"`    // ... and the client->server pipe holds at most this many octets
+	SlowAfter  int    `json:"slowafter"`  // every server reads slowly after this many arrivals (0: never): ...
+	SlowMs     int    `json:"slowms"`     // ... at most 16 KiB per read, one read per SlowMs
+	BigWin     bool   `json:"bigwin"`     // servers grant 16 MiB stream and connection windows up front (flow control never limits a body)
+	DefReact   string `json:"defreact"`   // reaction for arrivals the scenario does not list (default "ok")
+	Scribble   bool   `json:"scribble"`   // callers overwrite their request body the moment RoundTrip returns (as a caller reusing its buffers would)
 }
 
 type rtScenario struct {
@@ -307,6 +309,9 @@ func (s *rtConn) blockDone() {
 	s.r.arrived[tag] = j + 1
 	s.r.mu.Unlock()
 	react := "ok"
+	if s.r.sc.Cfg.DefReact != "" {
+		react = s.r.sc.Cfg.DefReact
+	}
 	if l := s.r.sc.React[strconv.Itoa(tag)]; j < len(l) {
 		react = l[j]
 	}
@@ -316,18 +321,18 @@ func (s *rtConn) blockDone() {
 		return // the GOAWAY already disclaimed it; a server ignores such streams
 	}
 	s.reactOf[sid] = react
-	if s.blkES || react != "ok" && react != "okhdr" && react != "ga_at_ok" && react != "partial" {
+	if s.blkES || react != "ok" && !strings.HasPrefix(react, "ok@") && react != "okhdr" && react != "ga_at_ok" && react != "partial" {
 		s.requestDone(sid)
 	}
 }
 
 func (s *rtConn) writeResp(sid uint32, tag int, status int, body []byte, complete bool) {
+	s.wmu.Lock() // delayed answers are written from goroutines of their own: one encoder, one writer
+	defer s.wmu.Unlock()
 	s.hbuf.Reset()
 	s.henc.WriteField(hpack.HeaderField{Name: ":status", Value: strconv.Itoa(status)})
 	s.henc.WriteField(hpack.HeaderField{Name: "x-tag", Value: strconv.Itoa(tag)})
 	s.henc.WriteField(hpack.HeaderField{Name: "x-conn", Value: strconv.Itoa(s.idx)})
-	s.wmu.Lock()
-	defer s.wmu.Unlock()
 	s.fr.WriteHeaders(xh2.HeadersFrameParam{StreamID: sid, BlockFragment: append([]byte(nil), s.hbuf.Bytes()...), EndHeaders: true, EndStream: complete && len(body) == 0})
 	if len(body) > 0 {
 		s.fr.WriteData(sid, complete, body)
@@ -349,6 +354,20 @@ func (s *rtConn) requestDone(sid uint32) {
 	linger := time.Duration(s.r.sc.Cfg.LingerMs) * time.Millisecond
 	if linger == 0 {
 		linger = 60 * time.Millisecond
+	}
+	if strings.HasPrefix(react, "ok@") {
+		// answer after a delay (milliseconds): "ok@7"
+		ms, _ := strconv.Atoi(react[3:])
+		go func() {
+			time.Sleep(time.Duration(ms) * time.Millisecond)
+			if s.closed.Load() {
+				return
+			}
+			s.emit(sEvent{"k": "answer", "sid": int(sid), "tag": tag, "status": 200, "body": string(rtBody(tag, s.idx, sid))})
+			s.writeResp(sid, tag, 200, rtBody(tag, s.idx, sid), true)
+			s.emit(sEvent{"k": "answered", "sid": int(sid), "tag": tag})
+		}()
+		return
 	}
 	switch react {
 	case "ok":
@@ -462,46 +481,51 @@ func runRtScenario(sc rtScenario) (evs []sEvent) {
 			if q.AtMs > 0 {
 				time.Sleep(time.Duration(q.AtMs) * time.Millisecond)
 			}
-			req, res := fasthttp.AcquireRequest(), fasthttp.AcquireResponse()
-			req.Header.SetMethod(q.Method)
-			req.SetRequestURI(fmt.Sprintf("https://rt.test/t/%d", q.Tag))
-			if q.BodyN > 0 {
-				req.SetBody(bytes.Repeat([]byte{'b'}, q.BodyN))
-			}
-			r.emit(sEvent{"k": "call", "tag": q.Tag, "method": q.Method, "bodyn": q.BodyN})
-			t := time.Now()
-			var retry bool
-			var err error
-			func() {
-				defer func() {
-					if p := recover(); p != nil {
-						r.emit(sEvent{"k": "callpanic", "tag": q.Tag, "msg": fmt.Sprint(p)})
-						err = fmt.Errorf("panic: %v", p)
-					}
+			base := q
+			for rep := 0; rep <= base.Repeat; rep++ {
+				q := base
+				q.Tag = base.Tag + 1000*rep
+				req, res := fasthttp.AcquireRequest(), fasthttp.AcquireResponse()
+				req.Header.SetMethod(q.Method)
+				req.SetRequestURI(fmt.Sprintf("https://rt.test/t/%d", q.Tag))
+				if q.BodyN > 0 {
+					req.SetBody(bytes.Repeat([]byte{'b'}, q.BodyN))
+				}
+				r.emit(sEvent{"k": "call", "tag": q.Tag, "method": q.Method, "bodyn": q.BodyN})
+				t := time.Now()
+				var retry bool
+				var err error
+				func() {
+					defer func() {
+						if p := recover(); p != nil {
+							r.emit(sEvent{"k": "callpanic", "tag": q.Tag, "msg": fmt.Sprint(p)})
+							err = fmt.Errorf("panic: %v", p)
+						}
+					}()
+					retry, err = hc.Transport.RoundTrip(hc, req, res)
 				}()
-				retry, err = hc.Transport.RoundTrip(hc, req, res)
-			}()
-			e := sEvent{"k": "ret", "tag": q.Tag, "retry": retry, "ok": err == nil, "err": "", "class": rtErrClass(err), "ms": int(time.Since(t) / time.Millisecond),
-				"status": 0, "body": "", "xtag": -1}
-			if err != nil {
-				e["err"] = err.Error()
-			} else {
-				e["status"] = res.StatusCode()
-				e["body"] = string(res.Body())
-				if v := res.Header.Peek("x-tag"); len(v) > 0 {
-					e["xtag"], _ = strconv.Atoi(string(v))
+				e := sEvent{"k": "ret", "tag": q.Tag, "retry": retry, "ok": err == nil, "err": "", "class": rtErrClass(err), "ms": int(time.Since(t) / time.Millisecond),
+					"status": 0, "body": "", "xtag": -1}
+				if err != nil {
+					e["err"] = err.Error()
+				} else {
+					e["status"] = res.StatusCode()
+					e["body"] = string(res.Body())
+					if v := res.Header.Peek("x-tag"); len(v) > 0 {
+						e["xtag"], _ = strconv.Atoi(string(v))
+					}
 				}
-			}
-			r.emit(e)
-			if sc.Cfg.Scribble && q.BodyN > 0 {
-				// Request and Response are the caller's again: it reuses its buffers at once
-				b := req.Body()
-				for j := range b {
-					b[j] = 'S'
+				r.emit(e)
+				if sc.Cfg.Scribble && q.BodyN > 0 {
+					// Request and Response are the caller's again: it reuses its buffers at once
+					b := req.Body()
+					for j := range b {
+						b[j] = 'S'
+					}
 				}
+				fasthttp.ReleaseRequest(req)
+				fasthttp.ReleaseResponse(res)
 			}
-			fasthttp.ReleaseRequest(req)
-			fasthttp.ReleaseResponse(res)
 			returned[i].Store(true)
 		}(i)
 	}
